@@ -7,6 +7,7 @@ mod disk;
 mod codec;
 mod lru;
 mod pick;
+mod score;
 mod c09;
 mod sched;
 mod c12;
@@ -106,6 +107,7 @@ fn main() {
         "lru" => lru::run(&tier, seed, replay.as_deref(), &drv),
         "codec" => codec::run(&tier, seed, replay.as_deref(), &drv),
         "pick" => pick::run(&tier, seed, replay.as_deref(), &drv),
+        "score" => score::run(&tier, seed, replay.as_deref(), &drv),
         "builder" => builder::run(&tier, seed, replay.as_deref(), &drv),
         "disk" => disk::run(&tier, seed, replay.as_deref()),
         "c15" => {
